@@ -182,11 +182,30 @@ Proof.
 Qed.
 
 (* ---------------------------------------------------------------- histories with direct calls: the weak invariant *)
+Lemma fill_loop_winv e n v c l : caps_ok e -> forall s ok s' ok',
+  WInv e n s -> fill_loop (env_x e n v) s c l ok = (s', ok') -> WInv e n s'.
+Proof.
+  intros Hc. induction l as [|a t IH]; intros s ok s' ok' HW H; cbn [fill_loop] in H.
+  - injection H as <- _. exact HW.
+  - destruct (step (env_x e n v) s (SetCell a (Some c))) as [s1 r] eqn:E.
+    eapply IH; [|exact H]. eapply winv_step; eassumption.
+Qed.
+
+Lemma fill_loop_inv e n v c l : caps_ok e -> forall s ok s' ok',
+  Inv e s -> fill_loop (env_x e n v) s c l ok = (s', ok') -> Inv e s'.
+Proof.
+  intros Hc. induction l as [|a t IH]; intros s ok s' ok' HI H; cbn [fill_loop] in H.
+  - injection H as <- _. exact HI.
+  - destruct (step (env_x e n v) s (SetCell a (Some c))) as [s1 r] eqn:E.
+    eapply IH; [|exact H]. apply (inv_env_at e n v). eapply step_inv; [apply caps_ok_env_at; exact Hc| |exact E].
+    apply inv_env_at. exact HI.
+Qed.
+
 Definition XW (e : env) (x : xstate) : Prop := WInv e (born x) (xs x) /\ 0 <= born x.
 
 Lemma xstep_winv e x o : caps_ok e -> XW e x -> XW e (fst (xstep e x o)).
 Proof.
-  intros Hc [HW Hb]. unfold XW. destruct o as [o'|c a|c a| |w out|w out|w|w p am|c o2 key|c o2 ks|c ks]; simpl.
+  intros Hc [HW Hb]. unfold XW. destruct o as [o'|c a|c a| |w out|w out|w|w p am|c o2 key|c o2 ks|c ks|c a0 n0]; simpl.
   - destruct (step (env_x e (born x) (ov x)) (xs x) o') as [s' r] eqn:E. simpl. split; [|exact Hb].
     eapply winv_step; eassumption.
   - destruct (in_cells (env_x e (born x) (ov x)) c && in_agents (env_x e (born x) (ov x)) a) eqn:G; [|split; assumption].
@@ -207,6 +226,8 @@ Proof.
   - destruct (in_cells _ c && in_cells _ o2); split; assumption.
   - destruct (in_cells _ c && in_cells _ o2); split; assumption.
   - destruct (in_cells _ c); split; assumption.
+  - destruct (fill_loop _ (xs x) c _ 0) as [s' ok] eqn:E. simpl. split; [|exact Hb].
+    eapply fill_loop_winv; eassumption.
 Qed.
 
 Lemma xexec_winv e ops : caps_ok e -> forall x, XW e x -> XW e (xexec e x ops).
@@ -244,7 +265,7 @@ Definition is_raw (o : xop) : bool := match o with CellAdd _ _ | CellRemove _ _ 
 
 Lemma xstep_inv e x o : caps_ok e -> is_raw o = false -> Inv e (xs x) -> Inv e (xs (fst (xstep e x o))).
 Proof.
-  intros Hc Hr HI. destruct o as [o'|c a|c a| |w out|w out|w|w p am|c o2 key|c o2 ks|c ks]; try discriminate; simpl; try exact HI.
+  intros Hc Hr HI. destruct o as [o'|c a|c a| |w out|w out|w|w p am|c o2 key|c o2 ks|c ks|c a0 n0]; try discriminate; simpl; try exact HI.
   - destruct (step (env_x e (born x) (ov x)) (xs x) o') as [s' r] eqn:E. simpl.
     apply (inv_env_at e (born x) (ov x)). eapply step_inv; [apply caps_ok_env_at; exact Hc| |exact E].
     apply inv_env_at. exact HI.
@@ -252,6 +273,7 @@ Proof.
   - destruct (in_cells _ c && in_cells _ o2); exact HI.
   - destruct (in_cells _ c && in_cells _ o2); exact HI.
   - destruct (in_cells _ c); exact HI.
+  - destruct (fill_loop _ (xs x) c _ 0) as [s' ok] eqn:E. simpl. eapply fill_loop_inv; eassumption.
 Qed.
 
 Lemma xexec_inv e ops : caps_ok e -> forallb (fun o => negb (is_raw o)) ops = true ->
@@ -301,7 +323,7 @@ Proof.
             born (with_xs x s') = born x /\ eqv (xs x) (xs (with_xs x s')) /\
             xview e frac (with_xs x s') = xview e frac x).
   { intros s' He. split; [reflexivity|]. split; [exact He|]. destruct x as [s n v]. symmetry. apply xview_eqv. exact He. }
-  destruct o as [o'|c a|c a| |w out|w out|w|w p am|c o2 key|c o2 ks|c ks]; simpl in H.
+  destruct o as [o'|c a|c a| |w out|w out|w|w p am|c o2 key|c o2 ks|c ks|c a0 n0]; simpl in H.
   - destruct (step (env_x e (born x) (ov x)) (xs x) o') as [s' r] eqn:E. injection H as <- ->.
     apply Hgoal. eapply step_err_eqv; [apply caps_ok_env_at; exact Hc|apply inv_env_at; exact HI|exact E].
   - destruct (in_cells (env_x e (born x) (ov x)) c && in_agents (env_x e (born x) (ov x)) a); [|discriminate].
@@ -320,6 +342,7 @@ Proof.
   - destruct (in_cells _ c && in_cells _ o2); discriminate.
   - destruct (in_cells _ c && in_cells _ o2); discriminate.
   - destruct (in_cells _ c); discriminate.
+  - destruct (fill_loop _ (xs x) c _ 0); discriminate.
 Qed.
 
 Lemma x_atomic e frac n ops o x' k :
